@@ -12,8 +12,8 @@ pub struct C01;
 
 fn n_cases(tier: Tier) -> u64 {
     match tier {
-        Tier::Quick => 60_000,
-        Tier::Thorough => 1_500_000,
+        Tier::Quick => 250_000,
+        Tier::Thorough => 5_000_000,
     }
 }
 
